@@ -611,7 +611,11 @@ func (fr *Frame) canInline(fn *ssa.Function, bindings []Val) bool {
 		return false
 	}
 	if fn.TypeParams().Len() > 0 || (fn.Origin() != nil && fn.Origin() != fn) {
-		return false
+		// generic code is abstracted, except a fully instantiated method the contract asks to see through
+		// (`track f as x inline`)
+		if !(len(fn.TypeArgs()) > 0 && fn.Origin() != fn && fr.trackedInline(fn)) {
+			return false
+		}
 	}
 	o := fn
 	inMod := false
@@ -660,6 +664,24 @@ func (fr *Frame) canInline(fn *ssa.Function, bindings []Val) bool {
 		return false
 	}
 	return true
+}
+
+// trackedInline reports whether the contract of the function under verification names fn in a `track ... inline`.
+func (fr *Frame) trackedInline(fn *ssa.Function) bool {
+	c := fr.R.Contract
+	if c == nil {
+		return false
+	}
+	names := []string{fn.Name(), fr.R.fnShort(fn)}
+	if o := fn.Origin(); o != nil {
+		names = append(names, o.Name(), fr.R.fnShort(o))
+	}
+	for _, tr := range c.Tracks {
+		if tr.Inline && nameMatches(names, tr.Callee) {
+			return true
+		}
+	}
+	return false
 }
 
 func (fr *Frame) inlineCall(fn *ssa.Function, args []Val, bindings []Val, pos token.Pos) Val {
